@@ -1,4 +1,4 @@
-import LapyVerif.Props.C07
+import LapyVerif.Props.C07b
 import LapyVerif.Bridge.Fem
 /- axiom audit of C07 -/
 #print axioms LapyVerif.Props.C07.form_heatMat
@@ -15,3 +15,8 @@ import LapyVerif.Bridge.Fem
 #print axioms LapyVerif.Bridge.fem_tria_BL
 #print axioms LapyVerif.Bridge.fem_tet_A
 #print axioms LapyVerif.Bridge.fem_tet_BL
+#print axioms LapyVerif.Props.C07.anisoWeights_pos
+#print axioms LapyVerif.Props.C07.solverAniso_mass
+#print axioms LapyVerif.Props.C07.heat_conservation_aniso
+#print axioms LapyVerif.Props.C17.stiffAniso_symm
+#print axioms LapyVerif.Props.C17.stiffAniso_const_zero
